@@ -327,6 +327,9 @@ struct Tcp
 	void on_read(Side& s, error_code const& ec, std::size_t k, int g)
 	{
 		(void)g;
+		// the accept-into object was handed back to the acceptor (and may already carry the next
+		// connection, whose accept handler has not run yet): completions of the old connection are moot
+		if (s.side == 1 && accept_armed[s.conn]) return;
 		ctx.tr.rec("read", {s.conn, s.side, ec.value()}, {now_ns(), int64_t(k)});
 		Side::GenRec const p = peer(s).hist[s.port];
 		if (ec)
